@@ -25,7 +25,7 @@ GenNext ==
                              casc |-> ra'.casc, body |-> ra'.btok, opt |-> ra'.opt, sets |-> ra'.sets,
                              dels |-> {x \in XNames : ra'.dels[x]}, db |-> ra'.db, amt |-> ra'.amt,
                              def |-> ra'.def, path |-> ra'.path, val |-> ra'.val, newc |-> ra'.newc,
-                             cb |-> ra'.cb, json |-> ra'.json])
+                             cb |-> ra'.cb, json |-> ra'.json, h |-> RandomElement({"", "", "h2"})])
     /\ (nops' < MaxOps \/ PrintT(<<"BEHAVIOUR", ToJson(hist')>>))
 GenInit == Init /\ hist = <<>> /\ rop = "-" /\ rc = "-" /\ rk = "-" /\ ra = A0
 GenSpec == GenInit /\ [][GenNext]_gvars
